@@ -118,8 +118,16 @@ def run(case: dict) -> Outcome:
     out = Outcome()
     w = None
     try:
-        w = brokerops.run(case)
-    except (vclock.StepLimit, vclock.Deadlock) as e:
+        w = brokerops.run(case, max_steps=250_000)
+    except vclock.StepLimit as e:
+        if "virtual time" in str(e):
+            out.inconclusive = True
+        else:
+            # these histories need a few thousand loop steps; hundreds of thousands mean a broker call spins without progress
+            out.v("livelock", f"history did not finish within the loop-step watchdog ({e}): a broker call spins without making progress",
+                  broker=case["broker"])
+        return out
+    except vclock.Deadlock as e:
         out.inconclusive = True
         out.info["watchdog"] = str(e)
         return out
